@@ -2,13 +2,13 @@ NOTES = 'See DESIGN.md. All checks run the real maltoolbox code from /repo\'s wo
 NOT_YET = {}
 CHECKS['C05'] = ('model_checking',
   'explicit-state BFS over API-call histories of the real Model, lock-step reference model, deviation-bounded',
-  'Every history of Model/AttackerAttachment calls up to the reported depth and deviation budget over a <=3-asset universe is executed on the real code and compared step by step with an abstract reference model (ids, names, links, neighbours, entry points, failing calls change nothing).',
+  'Every history of Model/AttackerAttachment calls up to the reported depth and deviation budget over a <=3-asset universe is executed on the real code and compared step by step with an abstract reference model (ids, names, links, neighbours, entry points, failing calls change nothing); invalid calls include stale objects, associations with members that are not assets of the model, live asset objects added again and attachments equal to a live one.',
   'Trusted: CPython, python_jsonschema_objects. Bounded: depth/deviation/universe as reported in evidence; nothing claimed above the bound.',
   'DESIGN.md 3/C05')
 CHECKS['C01'] = ('model_checking',
   'bounded-exhaustive enumeration of (step expression, instance model) pairs executed on the real generator, compared with interval set semantics',
   'Every statically well-typed step expression up to the operator bound (as generated attack steps of the SEM language family) is evaluated by the real AttackGraph generator on every instance model up to the asset/link bound; each node\'s child set must lie between the reference lower/upper semantics (equal when no * occurs), parents must be the converse, generation must terminate.',
-  'Trusted: CPython, python_jsonschema_objects, the 100-line reference evaluator (self-checked by algebraic laws). Intersection/difference only where pointwise and set-level MAL readings coincide.',
+  'Trusted: CPython, python_jsonschema_objects, the 100-line reference evaluator (self-checked by algebraic laws). Set operators are applied per start asset (MAL semantics).',
   'DESIGN.md 3/C01')
 CHECKS['C03'] = ('model_checking',
   'explicit-state BFS to closure over lookup/regenerate/generate histories, one transition system per enumerated inheritance shape, reference fold as oracle',
@@ -22,17 +22,17 @@ CHECKS['C02'] = ('model_checking',
   'DESIGN.md 3/C02')
 CHECKS['C08'] = ('model_checking',
   'bounded-exhaustive enumeration of synthetic attack graphs x all storage orders of the node list, compared with a brute-force-validated greatest-fixed-point reference',
-  'Every attack graph with <=3 nodes (16 node kinds, every subset of the n^2 edges incl. self-loops and cycles) and every loop-free 4-node graph over 5 kinds is analysed by the real apriori analyser under EVERY permutation of graph.nodes (the schedule of its worklist); labels must equal the greatest fixed point of the stated equations and be identical across orders. The reference iteration is itself validated against brute force over all labellings.',
-  'Trusted: 60-line reference (validated by brute force each run). TTC "is a probability distribution" = named function other than Enabled/Disabled; arithmetic TTCs outside the alphabet.',
+  'Every attack graph with <=3 nodes (16 node kinds, every subset of the n^2 edges incl. self-loops and cycles) and every loop-free 4-node graph over 5 kinds is analysed by the real apriori analyser under EVERY permutation of graph.nodes (the schedule of its worklist); labels must equal the greatest fixed point of the stated equations and be identical across orders, also when the steps already carry labels (all False; those of an analysis of the same graph with every status flipped) and on chains / ladders of 1500 and 6000 steps. The reference iteration is itself validated against brute force over all labellings.',
+  'Trusted: 60-line reference (validated by brute force each run). TTC "is a probability distribution" = named function other than Enabled/Disabled, alone or as operand of an arithmetic TTC expression.',
   'DESIGN.md 3/C08')
 CHECKS['C09'] = ('model_checking',
   'explicit-state BFS over API-call histories of real attack graphs, structural invariants in every state plus functional reference per operation, deviation-bounded',
-  'Every history (to the reported depth / deviation budget) of generate, regenerate, add/remove node, attach/add/remove attacker, compromise/undo, analyse, prune, deep copy and save/load over graphs generated from two small languages is executed on the real code; in every state all child/parent references are inside the graph and mirrored, lookups by id / full name / attacker id are exact for present and for stale keys, attackers and nodes only reference live objects; a regenerated graph must equal a freshly generated one.',
+  'Every history (to the reported depth / deviation budget) of generate, regenerate, add/remove node, attach/add/remove attacker, compromise/undo, analyse, prune, deep copy and save/load over graphs generated from two small languages is executed on the real code; in every state all child/parent references are inside the graph and mirrored, lookups by id / full name / attacker id are exact for present and for stale keys, attackers and nodes only reference live objects; a regenerated graph must equal a freshly generated one. The alphabet also hands removed and live node / attacker objects back to the graph and passes unknown ids after known ones (a rejected call changes nothing).',
   'Trusted: CPython; ids chosen automatically are only constrained to be unique; list orders not compared.',
   'DESIGN.md 3/C09')
 CHECKS['C11'] = ('model_checking',
   'explicit-state BFS over compromise/undo/attach/add/remove-attacker histories on real attack graphs, invariant + functional reference',
-  'Same engine as C09 with an attacker-heavy alphabet: in every reached state reached_attack_steps and compromised_by (and is_compromised_by) agree; repeated compromise / vacuous undo change nothing; remove_attacker leaves no node compromised by it; attach_attackers creates exactly one attacker per model attacker whose entry points and reached steps are exactly the existing nodes named.',
+  'Same engine as C09 with an attacker-heavy alphabet: in every reached state reached_attack_steps and compromised_by (and is_compromised_by) agree; repeated compromise / vacuous undo change nothing; remove_attacker leaves no node compromised by it; attach_attackers creates exactly one attacker per model attacker whose entry points and reached steps are exactly the existing nodes named. Attackers that compare equal (same name, no id yet; an equal copy of a live attacker) must be told apart.',
   'Trusted: CPython. Bounded by depth / deviations / 3 attackers as reported.',
   'DESIGN.md 3/C11')
 CHECKS['C13'] = ('model_checking',
@@ -62,12 +62,12 @@ CHECKS['C07'] = ('model_checking',
   'DESIGN.md 3/C07')
 CHECKS['C04'] = ('exploration',
   'bounded-exhaustive enumeration of programs generated from specifications (expression / TTC trees, declaration forms, include layouts), print-compile round trip as oracle',
-  'Every step-expression tree up to the operator bound in the four contexts and list positions, every TTC tree up to the bound, all 49 multiplicity form pairs, the product of step / asset / category / association forms, every include layout of a 6-declaration program and both shipped .mar specifications are printed with minimal parentheses and compiled by the real compiler; the result must equal the specification (dict equality incl. list order), layouts must agree.',
+  'Every step-expression tree up to the operator bound in the four contexts and list positions, every TTC tree up to the bound, all 49 multiplicity form pairs, the product of step / asset / category / association forms, every include layout of a 6-declaration program (flat, repeated, nested, sibling, sub-directories, relative to the including file, cyclic, a decoy file of the same name next to the root, a re-used compiler) and both shipped .mar specifications are printed with minimal parentheses and compiled by the real compiler; the result must equal the specification (dict equality incl. list order), layouts must agree.',
   'Trusted: the 150-line unparser (validated by the exact round trip of both malc-produced .mar specifications), ANTLR runtime and generated parser.',
   'DESIGN.md 3/C04')
 CHECKS['C17'] = ('fault_enumeration',
   'exhaustive single-token fault enumeration (delete / truncate / swap / insert every token type / reserved-word substitution) over 6 base programs, root and included; grammar verdict as oracle',
-  'Every single-token fault of six programs that together use every grammar rule (and every pair of delete/swap x delete/swap/truncate faults of the smallest, thorough tier) is classified by the repository\'s own ANTLR lexer+parser with a counting listener; every text the grammar rejects must make MalCompiler.compile and LanguageGraph.from_mal_spec raise, both as the root file and as a file included by a valid root.',
+  'Every single-token fault of six programs that together use every grammar rule (and every pair of delete/swap x delete/swap/truncate faults of the smallest, thorough tier) is classified by the repository\'s own ANTLR lexer+parser with a counting listener and a check that the whole token stream was consumed (the start rule has no EOF); every text the grammar rejects must make MalCompiler.compile and LanguageGraph.from_mal_spec raise, both as the root file and as a file included by a valid root.',
   'Trusted: the generated lexer/parser as the definition of the grammar. Texts that stay grammatical are counted and skipped.',
   'DESIGN.md 3/C17')
 CHECKS['C15'] = ('exploration',
@@ -77,12 +77,12 @@ CHECKS['C15'] = ('exploration',
   'DESIGN.md 3/C15')
 CHECKS['C06'] = ('exploration',
   'bounded-exhaustive enumeration of languages x construction attempts (types, field sizes 0..max+1, repeated assets, duplicate links, defense values), accepted iff allowed by the language',
-  'For every language of the CLS family (inherited / overridden / extended defenses with every TTC form, all 49 multiplicity form pairs, same-named associations over different type pairs) and the OPS languages: asset classes and defense properties with defaults, every defense value inside and outside [0,1] by constructor and assignment, association classes via signature lookup with their two fields, and per association class every construction attempt over every asset type (declared, subtype, supertype, sibling, unrelated), sizes up to max+1, repeated assets and duplicate links; an attempt must be accepted exactly when the language allows it and a rejected attempt must leave the model unchanged.',
-  'Trusted: python_jsonschema_objects validation (checked end to end through what maltoolbox builds from it). Minimum multiplicities are not demanded.',
+  'For every language of the CLS family (inherited / overridden / extended defenses with every TTC form, all 49 multiplicity form pairs, same-named associations over different type pairs, over the same pair in both directions and over the same pair with different field names, a language without associations) and the OPS languages: asset classes and defense properties with defaults, every defense value inside and outside [0,1] (incl. inf, -inf, nan) by constructor and assignment, association classes via signature lookup with their two fields, and per association class every construction attempt over every asset type (declared, subtype, supertype, sibling, unrelated), sizes up to max+1, repeated assets and duplicate links; an attempt must be accepted exactly when the language allows it and a rejected attempt must leave the model unchanged.',
+  'Trusted: python_jsonschema_objects validation (checked end to end through what maltoolbox builds from it). Minimum multiplicities are not demanded. Known finding (KNOWN_FINDINGS.txt): NaN is accepted as a defense value.',
   'DESIGN.md 3/C06')
 CHECKS['C16'] = ('exploration',
   'complete run of a finite configuration grid (cells x entry paths x repetitions x process layouts x hash seeds) in subprocesses, hash equality within each cell',
-  'Every (language, model) cell (SEM, INH, OPS, GOPS, CLS languages and coreLang with the shipped example model) is generated through the direct API and through create_attack_graph from a .mar and from a .mal file, twice per process, with all cells in one process in both orders and with one fresh process per cell, under several PYTHONHASHSEED values; all serialised graphs of a cell must be identical, the model serialisation and the language specification must be unchanged by generation + attach + analysis, and two graphs built from one model must share no node.',
+  'Every (language, model) cell (SEM, INH, OPS, GOPS, CLS languages and coreLang with the shipped example model) is generated through the direct API (from the in-memory model with int / bool / float defense values and from the saved file) and through create_attack_graph from a .mar and from a .mal file, twice per process, with all cells in one process in both orders and with one fresh process per cell, under several PYTHONHASHSEED values; all serialised graphs of a cell must be identical, the model serialisation and the language specification must be unchanged by generation + attach + analysis, and two graphs built from one model must share no node.',
   'Trusted: the OS process boundary and sha256. The grid is finite and run completely; other hash seeds / languages are outside it.',
   'DESIGN.md 3/C16')
 CHECKS['C18'] = ('model_checking',
@@ -92,6 +92,6 @@ CHECKS['C18'] = ('model_checking',
   'DESIGN.md 3/C18')
 CHECKS['C19'] = ('model_checking',
   'recording stand-in for the database driver; every reached model / attack-graph state exported and compared; import replayed under every permutation of the answer rows',
-  'py2neo.Graph is replaced by a recording stand-in that answers the two fixed Cypher queries with their Cypher meaning: for every distinct model reached by bounded edit histories (plus pairs linked by two association types, one type in both directions, self-links, same-named associations between subtypes) the created Subgraph must hold one node per asset and one relationship per direction of every linked pair labelled with the field name; get_model against what was exported must reconstruct the same assets and links under EVERY order of the answer rows; every attack-graph state of the C09 search is exported and compared node by node and edge by edge.',
+  'py2neo.Graph is replaced by a recording stand-in that answers the two Cypher query shapes get_model sends with their Cypher meaning: for every distinct model reached by bounded edit histories (plus pairs linked by two association types, one type in both directions, self-links, same-named associations between subtypes) the created Subgraph must hold one node per asset and one relationship per direction of every linked pair labelled with the field name; get_model against what was exported must reconstruct the same assets and links under EVERY order of the answer rows, and also when the model's attack graph was ingested into the same database; every attack-graph state of the C09 search is exported and compared node by node and edge by edge.',
   'Trusted: py2neo Node/Relationship/Subgraph and the stand-in\'s reading of the two Cypher strings. Defense values and attackers are not exported by the library.',
   'DESIGN.md 3/C19')
